@@ -62,7 +62,18 @@ const specimenJS = `{
   sliced: [1, 2, 3].slice(1),
   concat: [1].concat([2]),
   inst: new (function K() { this.own = 1; })(),
-  getset: {get g() { return 1; }, set g(v) {}, get h() { return 2; }}
+  getset: {get g() { return 1; }, set g(v) {}, get h() { return 2; }},
+  many: function (a1, a2, a3, a4, a5, a6, a7, a8, a9, a10, a11, a12) {},
+  newfn: new Function(),
+  boundnative: Math.max.bind(null, 1),
+  boundbound: (function (a, b, c) {}).bind(null, 1).bind(null, 2),
+  defacc: Object.defineProperty({}, "x", {get: function () { return 1; }}),
+  frozen: Object.freeze({a: 1}),
+  sealed: Object.seal({a: 1}),
+  noext: Object.preventExtensions({a: 1}),
+  arrlen: (function () { var a = [1, 2, 3]; a.length = 1; return a; })(),
+  big: new Array(4294967295),
+  dateutc: new Date(Date.UTC(2000, 0, 1))
 }`
 
 const walkerJS = `(function (global, spec) {
